@@ -5,6 +5,7 @@ CONSTANTS
   Conts <- cConts
   MaxList = 2
   MaxNodes = 5
+  PairNodes = 0
   PathNames = {"a", "b", "*", "z"}
   IdxNames = {"a", "b"}
   MaxIdx = 1
